@@ -92,7 +92,20 @@ def main(argv=None) -> int:
         if a.replay:
             with open(a.replay) as f:
                 replay = json.load(f)
-        ctx = run_rules(pid, a.root, a.tier, seed)
+        # watchdog: the rule pass on one tree takes seconds; a canonicalisation that does not come back (an expression blow-up on a construction the
+        # rules were not written for) is an analysis error, not a hang
+        import signal
+        limit = int(os.environ.get('TWVERIF_RULE_TIMEOUT', '600') or 0)
+        if limit and hasattr(signal, 'SIGALRM'):
+            def _too_long(signum, frame):
+                raise AnalysisError(f"the rule pass did not finish within {limit} s (expression blow-up): construction not analysable")
+            signal.signal(signal.SIGALRM, _too_long)
+            signal.alarm(limit)
+        try:
+            ctx = run_rules(pid, a.root, a.tier, seed)
+        finally:
+            if limit and hasattr(signal, 'SIGALRM'):
+                signal.alarm(0)
         extra = None
         if a.tier == 'thorough' and replay is None:
             from twverif import selftest
